@@ -114,4 +114,18 @@ theorem Src_terms_are_like_equiv (a b c : TermKey) :
   simp only [Src_terms_are_like]
   exact ⟨C16_termsAreLike_refl a, C16_termsAreLike_symm a b, C16_termsAreLike_trans a b c⟩
 
+/-- the translated `make_term` is the model's, for every triple -/
+theorem Src_make_term (c : Rat) (v : Option Char) (e : Option Rat) : Src.make_term c v e = makeTerm c v e := by
+  unfold Src.make_term makeTerm
+  cases v <;> cases e <;> by_cases hc : c = 1 <;> simp [hc]
+
+/-- C16 for the translated code: a term built by the translated `make_term` decomposes (through the translated
+`get_term_ex`, `Src_get_term_ex`) back to the triple it was built from and has the value `c * v ^ e` -/
+theorem Src_make_term_roundtrip (c : Rat) (v : Char) (e : Option Rat) (m : Ex)
+    (h : Src.make_term c (some v) e = some m) :
+    getTermEx false m = some ⟨if c = 1 then none else some c, some v, e⟩ ∧
+    ∀ env : Env, eval env m = (TermEx.mk (some c) (some v) e).res env := by
+  rw [Src_make_term] at h
+  exact ⟨C16_makeTerm_roundtrip c v e m h, fun env => C16_makeTerm_value c (some v) e m env h⟩
+
 end Mathy
